@@ -97,6 +97,16 @@ MUTANTS = {
         ('msi-swallow', 'dashlive/server/requesthandler/media_requests.py', "            raise ValueError(\n                f'Segment {seg_num} not found (valid range= {first}->{last})')", "            pass"),
         ('ts2td-int', 'dashlive/mpeg/dash/representation.py', '        seconds = float(timecode) / float(self.timescale)\n', '        seconds = timecode // self.timescale\n'),
     ],
+    'C04': [
+        ('mfhd-h', 'dashlive/mpeg/mp4.py', "        w.write('I', 'sequence_number')", "        w.write('H', 'sequence_number')"),
+        ('mehd-swap', 'dashlive/mpeg/mp4.py', "        if self.version == 1:\n            w.write('Q', 'fragment_duration')\n        else:\n            w.write('I', 'fragment_duration')", "        if self.version == 0:\n            w.write('Q', 'fragment_duration')\n        else:\n            w.write('I', 'fragment_duration')"),
+        ('trex-order', 'dashlive/mpeg/mp4.py', "        w.write('I', 'default_sample_duration')\n        w.write('I', 'default_sample_size')\n        w.write('I', 'default_sample_flags')\n\n", "        w.write('I', 'default_sample_size')\n        w.write('I', 'default_sample_duration')\n        w.write('I', 'default_sample_flags')\n\n"),
+        ('tfdt-parse-signed', 'dashlive/mpeg/mp4.py', 'rv["base_media_decode_time"] = struct.unpack(\'>I\', src.read(4))[0]', 'rv["base_media_decode_time"] = struct.unpack(\'>i\', src.read(4))[0]'),
+        ('tfhd-flag', 'dashlive/mpeg/mp4.py', "        if self.flags & self.default_sample_size_present:\n            w.write('I', 'default_sample_size')", "        if self.flags & self.default_sample_duration_present:\n            w.write('I', 'default_sample_size')"),
+        ('tfhd-parse-order', 'dashlive/mpeg/mp4.py', '        if rv["flags"] & clz.sample_description_index_present:\n            r.read(\'I\', \'sample_description_index\')\n        if rv["flags"] & clz.default_sample_duration_present:\n            r.read(\'I\', \'default_sample_duration\')', '        if rv["flags"] & clz.default_sample_duration_present:\n            r.read(\'I\', \'default_sample_duration\')\n        if rv["flags"] & clz.sample_description_index_present:\n            r.read(\'I\', \'sample_description_index\')'),
+        ('fullbox-flags', 'dashlive/mpeg/mp4.py', "        d.write(3, 'flags', value=struct.pack('>I', self.flags)[1:])", "        d.write(3, 'flags', value=struct.pack('>I', self.flags >> 1)[1:])"),
+        ('tfdt-widen', 'dashlive/mpeg/mp4.py', "            if self.version == 0 and value.bit_length() > 32:", "            if self.version == 0 and value.bit_length() > 33:"),
+    ],
     'C06': [
         ('vodp-duration', 'dashlive/mpeg/dash/timing.py', '            self.stream_reference.media_duration, self.stream_reference.timescale)', '            self.stream_reference.timescale, self.stream_reference.media_duration)'),
         ('init-publish', 'dashlive/mpeg/dash/timing.py', '        self.publishTime = now.replace(microsecond=0)\n        self.stream_reference', '        self.publishTime = now\n        self.stream_reference'),
